@@ -3,7 +3,9 @@
 //   C09 header identity / consecutive counters (shadow)      C10 used encoder == fresh encoder (mod counter offset)
 //   C01 decode(encode(batch)) == batch (snapshot comparison, wire-level header comparison)
 // Each check (--prop) reports only violations of its own property; ASan/UBSan watch every execution.
+#include <deque>
 #include <forward_list>
+#include <list>
 #include <memory>
 #include <sstream>
 #include <stdexcept>
@@ -239,10 +241,9 @@ Batch genBatch(Rng& r, size_t maxPackets, bool allowHuge, bool allowUndefinedTyp
         }
         b.pkts.push_back(std::move(d));
     }
-    if (b.pkts.size() == 1)
-        b.overload = static_cast<int>(r.below(4));
-    else
-        b.overload = static_cast<int>(r.below(3));
+    b.overload = static_cast<int>(r.below(7));
+    if (b.overload == 3 && b.pkts.size() != 1)
+        b.overload = 0;
     return b;
 }
 
@@ -275,6 +276,29 @@ std::vector<std::vector<uint8_t>> runEncode(Encoder& enc, const Batch& b)
                 return enc.encode(p, ctx);
             }
             [[fallthrough]];
+        case 4:
+        {
+            std::deque<Packet> q;
+            for (auto& d : b.pkts)
+                q.push_back(makePacket(d));
+            return enc.encode(q.begin(), q.end(), ctx);
+        }
+        case 5:
+        {
+            // raw pointers are iterators too
+            std::vector<Packet> v;
+            for (auto& d : b.pkts)
+                v.push_back(makePacket(d));
+            const Packet* first = v.data();
+            return enc.encode(first, first + v.size(), ctx);
+        }
+        case 6:
+        {
+            std::list<std::shared_ptr<Packet>> l;
+            for (auto& d : b.pkts)
+                l.push_back(std::make_shared<Packet>(makePacket(d)));
+            return enc.encode(l.cbegin(), l.cend(), ctx);
+        }
         default:
         {
             std::vector<Packet> v;
@@ -705,6 +729,40 @@ void checkRoundTrip(Reporter& rep, Ctx& c, const Batch& b, const std::vector<std
     {
         snprintf(buf, sizeof buf, "%zu packets encoded into %zu frames, %zu packets decoded", b.pkts.size(), frames.size(), got.size());
         rep.v("C01", "C01:packet-count", buf);
+    }
+    // the packets exactly as the decoder handed them out (shared pointers), encoded again with the same ids and context,
+    // give the same frames apart from the counters (they carry the same named fields, C01; the encoder sets the segment bits itself)
+    if (got.size() == b.pkts.size() && c.prop == "C01")
+    {
+        bool allThere = true;
+        for (auto& p : got)
+            if (!p)
+                allThere = false;
+        if (allThere)
+        {
+            Encoder again;
+            again.setDeviceId(dev);
+            again.setStreamId(stream);
+            DataContext ctx;
+            ctx.minBytesPerMessage = b.cfg.min;
+            ctx.maxBytesPerMessage = b.cfg.max;
+            auto f2 = again.encode(got.begin(), got.end(), ctx);
+            bool same = f2.size() == frames.size();
+            size_t fi = 0;
+            for (; same && fi < f2.size(); ++fi)
+                if (f2[fi].size() != frames[fi].size() || f2[fi].size() < 8 || memcmp(f2[fi].data(), frames[fi].data(), 6) != 0 ||
+                    memcmp(f2[fi].data() + 8, frames[fi].data() + 8, f2[fi].size() - 8) != 0)
+                {
+                    same = false;
+                    break;
+                }
+            if (!same)
+            {
+                snprintf(buf, sizeof buf, "re-encoding the decoded packets gives %zu frames, the original encoding %zu; first difference at frame %zu", f2.size(), frames.size(), fi);
+                rep.v("C01", "C01:re-encoding-the-decoded-packets-differs", buf);
+            }
+            c.count("decoded_batches_re_encoded");
+        }
     }
     size_t n = std::min(got.size(), b.pkts.size());
     for (size_t i = 0; i < n; ++i)
